@@ -279,9 +279,9 @@ func (w *vfC15World) runRace(actors []*vfC15Actor, patient bool, choose func(rea
 // vfC15RaceOp is what the serial-order search needs to know about one operation of the race.
 type vfC15RaceOp struct {
 	op      vfC15Op
-	must    bool       // acknowledged: has to be part of the explanation
-	may     bool       // outcome unknown (failed or node died): may be part of it
-	sawLast *vfC15Cfg  // update: what its last callback invocation was handed
+	must    bool      // acknowledged: has to be part of the explanation
+	may     bool      // outcome unknown (failed or node died): may be part of it
+	sawLast *vfC15Cfg // update: what its last callback invocation was handed
 	newCfg  *vfC15Cfg
 }
 
